@@ -339,10 +339,12 @@ class MatrixSubproblemSolver(LinearSubproblemSolver):
         super().internal_init(admm)
 
         if admm.f is None:
-            A = snp.zeros(admm.C_list[0].input_shape[0], dtype=admm.C_list[0].input_dtype)
+            A = snp.zeros((1, admm.C_list[0].input_shape[0]), dtype=admm.C_list[0].input_dtype)
             W = None
         else:
             A = admm.f.A
+            if isinstance(A, Diagonal):
+                A = snp.diag(A.diagonal)
             W = 2.0 * self.admm.f.scale * admm.f.W  # type: ignore
 
         Csum = reduce(
